@@ -89,6 +89,37 @@ Qed.
 Lemma cmp_self : forall p x, is_prefix x p = false -> is_prefix p x = false -> is_prefix x p = false /\ is_prefix p x = false.
 Proof. auto. Qed.
 
+(* node rewrites that keep everything but the metadata, and only at or below p *)
+Definition nice (p : path) (g : node -> node) : Prop :=
+  (forall n, n_path (g n) = n_path n /\ n_uid (g n) = n_uid n /\ n_kind (g n) = n_kind n /\ n_flag (g n) = n_flag n
+             /\ n_parents (g n) = n_parents n /\ n_cache (g n) = n_cache n)
+  /\ (forall n, is_prefix p (n_path n) = false -> g n = n).
+
+Lemma nice_comp : forall p g1 g2, nice p g1 -> nice p g2 -> nice p (fun x => g2 (g1 x)).
+Proof.
+  intros p g1 g2 [A1 B1] [A2 B2]. split.
+  - intros n. destruct (A1 n) as [a1 [a2 [a3 [a4 [a5 a6]]]]], (A2 (g1 n)) as [b1 [b2 [b3 [b4 [b5 b6]]]]]. repeat split; congruence.
+  - intros n P. rewrite (B1 n P). now apply B2.
+Qed.
+
+Lemma is_child_prefix : forall p q, is_child p q = true -> is_prefix p q = true.
+Proof. intros p q H. unfold is_child in H. unfold is_prefix. destruct (strip p q); [reflexivity|discriminate]. Qed.
+
+Lemma set_names_nice : forall p names, exists g, nice p g /\ forall s, nodes (set_names s p names) = map g (nodes s) /\ leaves (set_names s p names) = leaves s.
+Proof.
+  intros p names. unfold set_names.
+  destruct (match names with Some l => norm_names l | None => None end) as [l|].
+  - eexists. split; [|intros s; split; reflexivity]. split.
+    + intros n. destruct (is_prefix p (n_path n)); repeat split; reflexivity.
+    + intros n P. now rewrite P.
+  - eexists. split; [|intros s; split; reflexivity]. split.
+    + intros n. destruct (path_eqb (n_path n) p || is_child p (n_path n)); repeat split; reflexivity.
+    + intros n P. destruct (path_eqb (n_path n) p || is_child p (n_path n)) eqn:E; [|reflexivity]. exfalso.
+      apply orb_true_iff in E. destruct E as [E|E].
+      * apply path_eqb_eq in E. rewrite E, is_prefix_refl in P. discriminate.
+      * apply is_child_prefix in E. congruence.
+Qed.
+
 Definition fixed (fx : fixes) : Prop := fix_rebind fx = true /\ fix_meta fx = true.
 
 (* the writes of the full statement, except memmap_ on a tree *)
@@ -128,19 +159,21 @@ Proof.
   - (* OSetNames *)
     destruct (find_node s p) as [n|] eqn:F; [|exact G]. destruct (find_node_in s p n F) as [Hn _].
     destruct (g_td U s G n Hn) as [T _]. rewrite T, FM. cbn [fst].
-    apply (erase_after_change_good U s _ p p
-             (fun x => if is_prefix p (n_path x) then with_meta x {| m_bs := m_bs (n_meta x); m_names := names; m_dev := m_dev (n_meta x) |} else x)); auto.
-    + intros x. destruct (is_prefix p (n_path x)); repeat split; reflexivity.
-    + intros x Px. now rewrite Px.
+    destruct (set_names_nice p names) as [g [Ng Eg]].
+    apply (erase_after_change_good U s _ p p g); auto; try apply Ng; try apply Eg.
   - (* OSetBatchSize *)
     destruct (find_node s p) as [n|] eqn:F; [|exact G]. destruct (find_node_in s p n F) as [Hn _].
     destruct (g_td U s G n Hn) as [T _]. rewrite T, FM. cbn [fst].
-    apply (erase_after_change_good U s _ p p
-             (fun x => if path_eqb (n_path x) p
-                       then with_meta x {| m_bs := bs; m_names := match m_names (n_meta x), bs with Some l, _ :: _ => Some (firstn (List.length bs) l) | _, _ => None end;
-                                           m_dev := m_dev (n_meta x) |} else x)); auto.
-    + intros x. destruct (path_eqb (n_path x) p); repeat split; reflexivity.
-    + intros x Px. destruct (path_eqb (n_path x) p) eqn:E; [|reflexivity]. apply path_eqb_eq in E. rewrite E, is_prefix_refl in Px. discriminate.
+    set (g1 := fun x => if path_eqb (n_path x) p then with_meta x {| m_bs := bs; m_names := None; m_dev := m_dev (n_meta x) |} else x).
+    assert (N1 : nice p g1).
+    { split.
+      - intros x. unfold g1. destruct (path_eqb (n_path x) p); repeat split; reflexivity.
+      - intros x Px. unfold g1. destruct (path_eqb (n_path x) p) eqn:E; [|reflexivity]. apply path_eqb_eq in E. rewrite E, is_prefix_refl in Px. discriminate. }
+    destruct (m_names (n_meta n)) as [l|].
+    + destruct (set_names_nice p (Some (firstn (List.length bs) l))) as [g2 [N2 E2]].
+      apply (erase_after_change_good U s _ p p (fun x => g2 (g1 x))); auto; try apply (nice_comp p g1 g2 N1 N2);
+        try (rewrite (proj1 (E2 _)); cbn [nodes upd_nodes]; now rewrite map_map); try (now rewrite (proj2 (E2 _))).
+    + apply (erase_after_change_good U s _ p p g1); auto; apply N1.
 Qed.
 
 Theorem run_good_fixed : forall fx U hk ops s,
